@@ -23,7 +23,7 @@ def items(ctx):
         m = [[-1] * 3 for _ in range(3)]
         (m[0][1], m[0][2], m[1][2]) = combo
         mats.append((3, m))
-    for _ in range(150 if q else 3000):
+    for _ in range(500 if q else 3000):
         n = rng.choice([2, 4, 4, 5, 6])
         mats.append((n, rand_matrix(rng, n, rng.choice([(1, 2, 3, -1), (1, 2, 3, 4, 5), (1, 1, 2), (2, 5, 7, 9, -1)]))))
     for (n, m) in mats:
@@ -41,7 +41,7 @@ def items(ctx):
                          "method": rng.choice(["complete", "single", "average"]), "only_triu": rng.random() < 0.4})
         out.append({"n": n, "matrices": [m, m2], "series": [], "fits": fits})
     # real series through the library's own distance-matrix functions (integer distances: euclidean inner distance)
-    for _ in range(60 if q else 1200):
+    for _ in range(200 if q else 1200):
         n = rng.randint(2, 6)
         sers = []
         for _s in range(2):
